@@ -198,6 +198,14 @@ func (c *ColumnImage) MarshalJSON() ([]byte, error) {
 	if t, ok := c.Value.(time.Time); ok {
 		value = t.Format(time.RFC3339Nano)
 	}
+	switch c.ColumnType {
+	case JDBCTypeChar, JDBCTypeVarchar, JDBCTypeLongVarchar:
+		// text is always written as a JSON string (a []byte would be written
+		// as base64, which cannot be told apart from text when reading)
+		if rv := reflect.ValueOf(value); rv.Kind() == reflect.Slice && rv.Type().Elem().Kind() == reflect.Uint8 {
+			value = string(rv.Bytes())
+		}
+	}
 	return json.Marshal(&columnImageAlias{
 		KeyType:    c.KeyType,
 		ColumnName: c.ColumnName,
@@ -281,13 +289,15 @@ func (c *ColumnImage) UnmarshalJSON(data []byte) error {
 				return err
 			}
 		case JDBCTypeChar, JDBCTypeVarchar, JDBCTypeLongVarchar:
-			var val []byte
-			if val, err = base64.StdEncoding.DecodeString(value.(string)); err != nil {
-				val = []byte(value.(string))
-			}
-			actualValue = string(val)
+			actualValue = value.(string)
 		case JDBCTypeBinary, JDBCTypeVarBinary, JDBCTypeLongVarBinary, JDBCTypeBit:
+			// binary values are written as base64 by encoding/json
 			actualValue = value
+			if str, ok := value.(string); ok {
+				if val, derr := base64.StdEncoding.DecodeString(str); derr == nil {
+					actualValue = val
+				}
+			}
 		}
 	}
 	*c = ColumnImage{
